@@ -106,18 +106,30 @@ pub fn diff(a: &D, b: &D, canonical: bool) -> Option<(Vec<u8>, bool)> {
     None
 }
 
-fn alphabet(pattern: &str) -> Vec<u8> {
-    let mut v: Vec<u8> = vec![b'/', b'q', b'.', b'\n'];
-    for b in pattern.bytes() {
-        if b.is_ascii_alphanumeric() {
-            for x in [b, b.to_ascii_lowercase(), b.to_ascii_uppercase()] {
-                if !v.contains(&x) {
-                    v.push(x);
-                }
-            }
+/// the symbols words are built from: whole characters (so that every word is a string), as their UTF-8 bytes.
+/// Every character that occurs in the program text can occur in a word of its language (literals are written as
+/// themselves, escaped or not; the characters of regex syntax come along and cost a few transitions), plus the case
+/// variants of every character, plus a few characters that occur in no expression
+fn alphabet(pattern: &str) -> Vec<Vec<u8>> {
+    let mut v: Vec<Vec<u8>> = vec![b"/".to_vec(), b"q".to_vec(), b".".to_vec(), b"\n".to_vec()];
+    let mut add = |c: char| {
+        let mut buf = [0u8; 4];
+        let b = c.encode_utf8(&mut buf).as_bytes().to_vec();
+        if !v.contains(&b) {
+            v.push(b);
+        }
+    };
+    for c in pattern.chars() {
+        add(c);
+        for x in c.to_lowercase().chain(c.to_uppercase()) {
+            add(x);
         }
     }
     v
+}
+
+fn step(d: &D, st: StateID, sym: &[u8]) -> StateID {
+    sym.iter().fold(st, |s, b| d.next_state(s, *b))
 }
 
 /// canonical p in L and canonical q beneath p with q not in L: returns (q, length of p)
@@ -126,41 +138,40 @@ pub fn desc_open(d: &D, pattern: &str) -> Option<(Vec<u8>, usize)> {
     let s0 = start(d);
     let alpha = alphabet(pattern);
     type K = (StateID, u8, u8);
-    let mut seen: HashMap<K, Option<(K, u8)>> = HashMap::new();
+    let mut seen: HashMap<K, Option<(K, usize)>> = HashMap::new();
     let mut q: VecDeque<K> = VecDeque::new();
     seen.insert((s0, 0, 0), None);
     q.push_back((s0, 0, 0));
     while let Some((st, ph, tr)) = q.pop_front() {
         if ph == 1 && tr == 3 && !accepts(d, st) {
-            let mut w = vec![];
-            let mut split = 0usize;
+            let mut syms: Vec<&Vec<u8>> = vec![];
             let mut cur = (st, ph, tr);
-            let mut n = 0usize;
             let mut phases = vec![];
-            while let Some(Some((prev, byte))) = seen.get(&cur) {
-                w.push(*byte);
+            while let Some(Some((prev, sym))) = seen.get(&cur) {
+                syms.push(&alpha[*sym]);
                 phases.push(prev.1);
                 cur = *prev;
-                n += 1;
             }
-            w.reverse();
+            syms.reverse();
             phases.reverse();
-            // the split is before the first byte read from phase 0 into phase 1
-            for (i, ph) in phases.iter().enumerate() {
+            // the split (in CHARACTERS) is before the first symbol read from phase 0 into phase 1
+            let mut w = vec![];
+            let mut split = 0usize;
+            for (i, (sym, ph)) in syms.iter().zip(phases.iter()).enumerate() {
                 if *ph == 0 {
                     split = i;
                 }
+                w.extend_from_slice(sym);
             }
-            let _ = n;
             return Some((w, split));
         }
-        for &byte in &alpha {
-            let is_sep = byte == b'/';
+        for (si, sym) in alpha.iter().enumerate() {
+            let is_sep = sym.as_slice() == b"/";
             let ntr = match canon_step(tr, is_sep) {
                 Some(t) => t,
                 None => continue,
             };
-            let nst = d.next_state(st, byte);
+            let nst = step(d, st, sym);
             let mut nexts: Vec<u8> = vec![];
             if ph == 1 {
                 nexts.push(1);
@@ -183,7 +194,7 @@ pub fn desc_open(d: &D, pattern: &str) -> Option<(Vec<u8>, usize)> {
             for nph in nexts {
                 let key = (nst, nph, ntr);
                 if !seen.contains_key(&key) {
-                    seen.insert(key, Some(((st, ph, tr), byte)));
+                    seen.insert(key, Some(((st, ph, tr), si)));
                     q.push_back(key);
                 }
             }
@@ -208,8 +219,8 @@ pub fn comp_counts(d: &D, pattern: &str, rooted: bool, cap: usize) -> Vec<usize>
         if (tr == 0 || tr == 1 || tr == 3 || tr == 13) && accepts(d, st) {
             found.insert((k, tr));
         }
-        for &byte in &alpha {
-            let is_sep = byte == b'/';
+        for sym in &alpha {
+            let is_sep = sym.as_slice() == b"/";
             let (ntr, nk) = match (tr, is_sep) {
                 (0, true) => (1, k),
                 (0, false) => (3, k + 1),
@@ -226,7 +237,7 @@ pub fn comp_counts(d: &D, pattern: &str, rooted: bool, cap: usize) -> Vec<usize>
                 _ => continue,
             };
             let nk = nk.min(cap);
-            let nst = d.next_state(st, byte);
+            let nst = step(d, st, sym);
             if d.is_dead_state(nst) {
                 continue;
             }
@@ -305,13 +316,13 @@ pub fn words(d: &D, pattern: &str, limit: usize, maxlen: usize) -> Vec<Vec<u8>> 
         if w.len() >= maxlen || expanded > 20000 {
             continue;
         }
-        for &byte in &alpha {
-            let n = d.next_state(st, byte);
+        for sym in &alpha {
+            let n = step(d, st, sym);
             if d.is_dead_state(n) {
                 continue;
             }
             let mut w2 = w.clone();
-            w2.push(byte);
+            w2.extend_from_slice(sym);
             q.push_back((n, w2));
             expanded += 1;
         }
